@@ -98,6 +98,9 @@ if meta["confirmed"]:
 prev = meta.get("checks", {}) if RECHECK and checks else {}
 prev.update(results)
 results = prev
+# the per-worktree build directories (harness + C20's feature configurations) are several GB each
+import hashlib
+shutil.rmtree("/verif/.build/alt-" + hashlib.sha1(WT.encode()).hexdigest()[:8], ignore_errors=True)
 meta["checks"] = results
 meta["caught_by"] = sorted(c for c, r in results.items() if r["rc"] != 0)
 meta["caught_by_target_property"] = prop in meta["caught_by"]
